@@ -142,3 +142,15 @@ Print Assumptions C18_merge_idem.
 Theorem C18_combine_idem : forall m, twf (TMap m) -> combine m m = m.
 Proof. exact combine_idem. Qed.
 Print Assumptions C18_combine_idem.
+
+(* ---- scopes with any number of include fields ---- *)
+Theorem C18_process_flat : forall load_file incs t,
+  process load_file (ISchema incs []) t = do_includes load_file incs t.
+Proof. exact process_flat. Qed.
+Print Assumptions C18_process_flat.
+
+Theorem C18_includes_unnamed : forall load_file incs t,
+  (forall k fid, In (k, fid) incs -> tget k t = None \/ tget k t = Some (TLeaf PNone)) ->
+  do_includes load_file incs t = Ok t.
+Proof. exact includes_unnamed. Qed.
+Print Assumptions C18_includes_unnamed.
